@@ -25,6 +25,7 @@ class _Differ:
         c = _ctx.current()
         self.defs = getattr(c, "_uf_defs", {})
         self.roots = getattr(c, "_root_defs", {})
+        self.csqrts = getattr(c, "_csqrt_defs", {})
 
     def depends(self, t):
         k = t.get_id()
@@ -46,6 +47,8 @@ class _Differ:
                         self.dep[uk] = self.depends_R(self.defs[uk])
                     elif uk in self.roots:
                         self.dep[uk] = self.depends(self.roots[uk][0])
+                    elif uk in self.csqrts:
+                        self.dep[uk] = self.depends(self.csqrts[uk][0]) or self.depends(self.csqrts[uk][1])
                     else:
                         self.dep[uk] = False
                     continue
@@ -101,6 +104,13 @@ class _Differ:
                 u, m = self.roots[k]
                 sR = R(n=t, d=())
                 res = self.dt(u) / (m * (sR ** (m - 1)))
+            elif k in self.csqrts:
+                # (u + iv)^2 = a + ib  ->  du + i dv = (da + i db) / (2 (u + iv))
+                ta, tb, part, u, v = self.csqrts[k]
+                uR, vR = R(n=u, d=()), R(n=v, d=())
+                da, db = self.dt(ta), self.dt(tb)
+                den = 2 * (uR * uR + vR * vR)
+                res = (uR * db - vR * da) / den if part else (uR * da + vR * db) / den
             else:
                 res = _ZERO
         elif kind == z3.Z3_OP_ADD:
